@@ -17,7 +17,7 @@ META = {
     ),
     "trusted_base": ["rustc nightly front end and constant evaluator", "core::slice::binary_search contract (Ok(i)/Err(i) = index of first element >= key for distinct sorted elements)",
                      "spec/topval.json"],
-    "assumptions": ["x86_64 target: the clz path is the one compiled; the plain binary-search arm is cfg'd out here (not covered)"],
+    "assumptions": ["analysed targets: x86_64 (leading-zeros bracketed search) and riscv64 without Zbb (plain binary search over the whole table); aarch64 and i686 in the thorough tier"],
     "not_decided": [],
 }
 TOP = table("length::TOP_VALUE_BY_ENCODING")
